@@ -108,6 +108,8 @@ where
     trait SpliceFn {
         fn read(&mut self) -> BoxFuture<'_, IoResult<usize>>;
         fn write(&mut self, more: bool) -> BoxFuture<'_, IoResult<usize>>;
+        // end the sending direction of the destination
+        fn shutdown(&mut self) -> IoResult<()>;
     }
     type BoxSpliceFn = Box<dyn SpliceFn + Send>;
     struct NullFn;
@@ -117,6 +119,9 @@ where
         }
         fn write(&mut self, _more: bool) -> BoxFuture<'_, IoResult<usize>> {
             unreachable!()
+        }
+        fn shutdown(&mut self) -> IoResult<()> {
+            Ok(())
         }
     }
     #[cfg(target_os = "linux")]
@@ -136,6 +141,12 @@ where
             }
             fn write(&mut self, more: bool) -> BoxFuture<'_, IoResult<usize>> {
                 async_splice(&mut self.pipe.0, &self.dfd, self.bufsz, more).boxed()
+            }
+            fn shutdown(&mut self) -> IoResult<()> {
+                use nix::sys::socket::{shutdown, Shutdown};
+                use std::os::unix::prelude::AsRawFd;
+                shutdown(self.dfd.as_raw_fd(), Shutdown::Write)
+                    .map_err(|e| std::io::Error::from_raw_os_error(e as i32))
             }
         }
 
@@ -212,6 +223,12 @@ where
         s.shutdown()
             .await
             .with_context(|| format!("shutdown frame {})", dst.name))?;
+    }
+
+    if have_rawfd {
+        pipe_fn
+            .shutdown()
+            .with_context(|| format!("shutdown fd {})", dst.name))?;
     }
 
     Ok(())
